@@ -301,6 +301,9 @@ def worker(case: Dict[str, Any]) -> CaseResult:
                 except BaseException as e:  # noqa: BLE001
                     count("args_unbuildable")
                     continue
+                if is_sub and uploads and "upload-tok#" in json.dumps(strip_omit(tree), default=str):
+                    count("upload_in_subscription_skipped")  # files have no defined meaning in a websocket frame
+                    continue
                 world = World(schema_ref, seed=case["seed"] * 100 + wi, mode=mode, rotation=wi, custom_scalar_values=tokens)
                 server.world = world
                 csm_mod.CALLS.clear()
